@@ -24,6 +24,7 @@ SIM_RULE = ("cases = fixed regression cases (the witnesses of findings F7-F10, F
 PROPS = {
     "C14": {
         "sub": "sim",
+        "search_n": {"quick": 30000, "thorough": 300000},
         "n": {"quick": 1500, "thorough": 200000},
         "coq_sample": {"quick": 6, "thorough": 40},
         "rule": SIM_RULE % "The monitor requires, with no machines: the multiset of client TunnelSent times equals the trace's send times, client TunnelRecv times equal its receive times, the server side is the mirror image shifted by the delay, no other kind of event, sim() agrees with sim_advanced(), and truncated runs are sub-multisets.",
@@ -32,6 +33,7 @@ PROPS = {
     },
     "C15": {
         "sub": "sim",
+        "search_n": {"quick": 30000, "thorough": 300000},
         "n": {"quick": 1500, "thorough": 200000},
         "coq_sample": {"quick": 6, "thorough": 40},
         "rule": SIM_RULE % 'The monitor requires: trace ordered by time; every TunnelRecv matched (greedily, earliest unmatched) to an earlier TunnelSent of the other side and same kind at least one delay before; no side sends or receives more normal packets than its share, exactly its share when the run ended with all normal packets processed.',
@@ -40,6 +42,7 @@ PROPS = {
     },
     "C16": {
         "sub": "sim",
+        "search_n": {"quick": 30000, "thorough": 300000},
         "n": {"quick": 1500, "thorough": 200000},
         "coq_sample": {"quick": 6, "thorough": 40},
         "rule": SIM_RULE % 'The monitor replays the trace through fresh frameworks to recover the BlockOutgoing/SendPadding actions and requires: BlockingEnd exactly once at the expiry computed by the start / replace / longest-of rule, no TunnelSent of a blocked side before the expiry unless the blocking is bypassable (every extending action allowed bypass) and the packet carries the bypass flag. Zero-duration blocks are the known finding F8.',
@@ -48,6 +51,7 @@ PROPS = {
     },
     "C17": {
         "sub": "sim",
+        "search_n": {"quick": 30000, "thorough": 300000},
         "n": {"quick": 1500, "thorough": 200000},
         "coq_sample": {"quick": 6, "thorough": 40},
         "rule": SIM_RULE % "The monitor replays the trace through fresh frameworks and requires: every PaddingSent/BlockingBegin is the completion of the machine's pending action, exactly at issue time + timeout, with the action's flags, once; superseded or cancelled actions never fire; no pending action is overdue when simulated time advances. Ties at one instant are resolved by backtracking over both orders.",
@@ -56,6 +60,7 @@ PROPS = {
     },
     "C18": {
         "sub": "sim",
+        "search_n": {"quick": 30000, "thorough": 300000},
         "n": {"quick": 1500, "thorough": 200000},
         "coq_sample": {"quick": 6, "thorough": 40},
         "rule": SIM_RULE % 'The monitor replays the trace through fresh frameworks and requires: each TimerBegin follows an UpdateTimer of that machine at that instant, each timer-setting UpdateTimer (replace, none running, later expiry) is followed by a TimerBegin at that instant, TimerEnd exactly once at the computed expiry and never for a cancelled or superseded timer.',
@@ -64,6 +69,7 @@ PROPS = {
     },
     "C19": {
         "sub": "sim",
+        "search_n": {"quick": 30000, "thorough": 300000},
         "n": {"quick": 1200, "thorough": 150000},
         "coq_sample": {"quick": 6, "thorough": 40},
         "rule": SIM_RULE % 'The monitor runs every case twice (identical traces), compares the three filtered runs with the projections of the unfiltered run (prefix of max_trace_length elements when bounded), and requires no panic (pps limits include 2^32), non-decreasing time and the configured bounds.',
